@@ -1,4 +1,4 @@
-\* topics (C02): set-up = 2 RUNNING modules in a started loop; literal and regular-expression subscriptions, publish with and without auto-free, unsubscribe / pause / stop with messages in flight
+\* system notifications through a regular-expression subscription, one-shot or not (C19, C03): exactly one notification per transition while subscribed; a one-shot subscription ends with its first notification
 CONSTANTS
   Mods = {"A", "B"}
   Order <- Order2
@@ -6,12 +6,12 @@ CONSTANTS
   Flags <- Flags_none
   CtxPersist = TRUE
   Topics = {"t1"}
-  Pats = {"t1", "t."}
+  Pats = {"MOD_ST."}
   MaxPay = 1
   Cap = 2
   MaxNest = 1
-  Ops = {"CtxDeregister", "DropRef", "Dispatch", "CtxQuit", "ModPause", "ModResume", "ModStop", "ModDeregister", "Publish", "Subscribe", "Unsubscribe"}
-  CbOps = {"ModPause", "Unsubscribe", "Publish"}
+  Ops = {"CtxDeregister", "DropRef", "Dispatch", "CtxQuit", "ModPause", "ModResume", "ModStop", "ModStart", "Subscribe", "Unsubscribe"}
+  CbOps = {}
   EvalVals = {TRUE}
   Prios = {"N"}
   BatchSizes = {}
@@ -21,16 +21,16 @@ CONSTANTS
   Keys = {1}
   SrcOpts = {}
   EvKinds = {"ps"}
-  MaxBatch = 3
+  MaxBatch = 1
   Errnos = {}
   TbVals = {}
   TickVals = {}
   Targets = {"A", "B"}
-  SubTargets = {"A", "B"}
-  AutoVals = {TRUE, FALSE}
-  SubOneshot = {FALSE}
+  SubTargets = {"A"}
+  AutoVals = {}
+  SubOneshot = {FALSE, TRUE}
   Senders = {"A", "B"}
-  QuitCodes = {0, 1}
+  QuitCodes = {1}
   ForeignOps = {}
   MaxRefs = 1
   MaxHeld = 0
